@@ -1,79 +1,20 @@
-import KalignModel.Model.Weave
-import KalignModel.Model.Path
+import KalignModel.Driver.Util
+import KalignModel.Driver.Weave
 /-!
 Line-protocol driver: one operation per input line, one result line per operation.
 Only executable model definitions are imported here (no `Props`, no Mathlib), so a failing proof
-never prevents the model from running.
+never prevents the model from running.  Each slice of the model contributes an `OpTable`.
 -/
 namespace Kalign.Driver
-open Kalign
 
-def parseNat? (s : String) : Option Nat := s.toNat?
-def parseInt? (s : String) : Option Int := s.toInt?
-
-def parseNats (s : String) : Option (List Nat) :=
-  if s == "-" then some [] else (s.splitOn ",").mapM parseNat?
-def parseInts (s : String) : Option (List Int) :=
-  if s == "-" then some [] else (s.splitOn ",").mapM parseInt?
-
-def showList {β} [ToString β] (l : List β) : String :=
-  if l.isEmpty then "-" else ",".intercalate (l.map toString)
-
-def parseRes (s : String) : List Char := if s == "." then [] else s.toList
-
-def showRow (r : List (Option Char)) : String :=
-  let s := String.ofList (r.map fun | some c => c | none => '-')
-  if s.isEmpty then "." else s
-
-def opUpdateGaps : List String → String
-  | [g, ng] => match parseNats g, parseNats ng with
-    | some g, some ng => showList (updateGaps g ng)
-    | _, _ => "bad-op"
-  | _ => "bad-op"
-
-/-- `make_seq codes na nb g_1 .. g_na h_1 .. h_nb` -> new gap vectors in `sip[c]` order -/
-def opMakeSeq : List String → String
-  | codes :: na :: nb :: rest =>
-    match parseNats codes, parseNat? na, parseNat? nb, rest.mapM parseNats with
-    | some codes, some na, some nb, some gs =>
-      if gs.length ≠ na + nb then "bad-op" else
-      let mk := fun (g : List Nat) => ({ res := ([] : List Char), gaps := g } : GSeq Char)
-      let A := (gs.take na).map mk
-      let B := (gs.drop na).map mk
-      " ".intercalate ((mergeStep codes A B).map fun s => showList s.gaps)
-    | _, _, _, _ => "bad-op"
-  | _ => "bad-op"
-
-def opExpand : List String → String
-  | [lenB, path] => match parseNat? lenB, parseInts path with
-    | some lenB, some path => match expandPath lenB path with
-      | some cs => showList cs
-      | none => "fault"
-    | _, _ => "bad-op"
-  | _ => "bad-op"
-
-def opMirror : List String → String
-  | [lenA, path] => match parseNat? lenA, parseInts path with
-    | some lenA, some path => showList (mirrorPath lenA path)
-    | _, _ => "bad-op"
-  | _ => "bad-op"
-
-def opMakeLinear : List String → String
-  | [res, gaps] => match parseNats gaps with
-    | some g => showRow (makeLinear (parseRes res) g)
-    | none => "bad-op"
-  | _ => "bad-op"
+def tables : OpTable := weaveOps
 
 def step (line : String) : String :=
   match (line.trimAscii.toString.splitOn " ").filter (· ≠ "") with
   | [] => "bad-op"
   | op :: args =>
-    match op with
-    | "update_gaps" => opUpdateGaps args
-    | "make_seq" => opMakeSeq args
-    | "add_gap_info" => opExpand args
-    | "mirror_path" => opMirror args
-    | "make_linear" => opMakeLinear args
-    | _ => "bad-op"
+    match tables.lookup op with
+    | some f => f args
+    | none => "bad-op"
 
 end Kalign.Driver
